@@ -54,6 +54,7 @@ pub fn run(a: &Args) {
     let seed = a.num("seed", 1);
     let bin = a.req("bin").to_string();
     let limit = a.num("limit", u64::MAX) as usize;
+    let quick = a.get("tier").unwrap_or("quick") == "quick";
     let cases = read_cases(a.req("cases"));
     let tmp = format!("{out}/files");
     std::fs::create_dir_all(&tmp).unwrap();
@@ -70,7 +71,7 @@ pub fn run(a: &Args) {
         let op = if seen.body.len() >= 4 { u16::from_be_bytes([seen.body[2], seen.body[3]]) } else { 0 };
         let ok = |body: Vec<u8>| Script { framing: ["length", "chunked", "close"][rot % 3].into(), status: 200, body, frag: [0, 3, 0][rot % 3], cut_at: None, stall_ms: 0, drip_ms: 0 };
         let _ = nth;
-        if op == 0x000b {
+        if op == 0x000b && script.get("reply").is_none() {
             let b = BLOCKING[rot % 10];
             let printer = |state: i32, reasons: AV| AGroup { tag: 4, attrs: vec![("printer-state".into(), AV::Enum(state)), ("printer-state-reasons".into(), reasons), ("printer-name".into(), AV::Str("NameWithoutLanguage", "p".into()))] };
             match script["check"].as_str().unwrap_or("ready") {
@@ -84,6 +85,12 @@ pub fn run(a: &Args) {
                 }
                 "ipp-error" => ok(ipp_response([0x0400u16, 0x0406, 0x0500, 0x0507][rot % 4], rid, vec![])),
                 _ => Script { framing: "length".into(), status: [500u16, 503, 404, 401][rot % 4], body: b"nope".to_vec(), frag: 0, cut_at: None, stall_ms: 0, drip_ms: 0 },
+            }
+        } else if script.get("reply").is_some() {
+            match script["reply"].as_str().unwrap() {
+                "ok" => ok(ipp_response([0u16, 1, 2][rot % 3], rid, vec![AGroup { tag: if op == 0x000a || op == 0x0009 { 2 } else { 1 }, attrs: vec![("job-id".into(), AV::Int(5)), ("job-state".into(), AV::Enum(7))] }])),
+                "ipp-error" => ok(ipp_response([0x0406u16, 0x0403, 0x0501, 0x040b][rot % 4], rid, vec![])),
+                _ => Script { framing: "length".into(), status: [404u16, 500, 403, 503][rot % 4], body: vec![], frag: 0, cut_at: None, stall_ms: 0, drip_ms: 0 },
             }
         } else {
             match script["print"].as_str().unwrap_or("ok") {
@@ -108,7 +115,13 @@ pub fn run(a: &Args) {
         let size = match ar["size"].as_str().unwrap() {
             "empty" => 0,
             "small" => 1 + r.below(2000),
-            _ => 300_000 + r.below(1_500_000),
+            _ => {
+                if quick {
+                    150_000 + r.below(250_000)
+                } else {
+                    300_000 + r.below(1_700_000)
+                }
+            }
         };
         let doc = pattern(size, ci as u32);
         let mut argv: Vec<String> = vec![];
@@ -226,6 +239,64 @@ pub fn run(a: &Args) {
             let _ = std::fs::remove_file(&path);
         }
         n += 1;
+    }
+    // ---- the single-exchange commands (specification extension MC_UtilCmd) ----
+    if let Some(p) = a.get("cmdcases") {
+        for (ci, c) in read_cases(p).iter().enumerate() {
+            let mut r = Rng::new(seed.wrapping_mul(16807).wrapping_add(ci as u64));
+            let cmd = c["cmd"].as_str().unwrap();
+            let target = if ci % 2 == 0 { format!("ipp://127.0.0.1:{}/printers/q{}", server.port, ci) } else { format!("http://localhost:{}/ipp?x={}", server.port, ci) };
+            let mut argv: Vec<String> = vec![cmd.to_string()];
+            let user = if c["user"].as_bool().unwrap() { Some(r.pick(&["alice", "bob smith", "üser"]).to_string()) } else { None };
+            let jobid: i32 = *r.pick(&[1i32, 0, -1, 2147483647, 42]);
+            if cmd == "cancel-job" || cmd == "get-job" {
+                argv.push(format!("--job-id={}", jobid));
+            }
+            if let Some(u) = &user {
+                argv.push("-u".into());
+                argv.push(u.clone());
+            }
+            let mut attrs = vec![];
+            for k in 0..c["nattrs"].as_u64().unwrap() as usize {
+                let an = ["printer-state", "all", "media-supported"][(ci + k) % 3];
+                argv.push("-a".into());
+                argv.push(an.to_string());
+                attrs.push(json!({"s": hexs(an.as_bytes())}));
+            }
+            argv.push(target.clone());
+            {
+                let mut g = cur.lock().unwrap();
+                *g = (json!({"reply": c["reply"]}), 0, (ci as u32).wrapping_add(seed as u32));
+            }
+            server.take_seen();
+            let side = json!({"argv": argv, "reply": c["reply"]});
+            sink.emit(
+                &json!({"ev": "ostart", "cmd": cmd, "op": c["op"], "jobid": if cmd == "cancel-job" || cmd == "get-job" { jobid } else { 0 },
+                "user": match &user { Some(u) => json!({"has": true, "s": hexs(u.as_bytes())}), None => json!({"has": false, "s": ""}) },
+                "attrs": attrs, "target": split_uri(&target), "reply": c["reply"]}),
+                &side,
+            );
+            let outp = Command::new(&bin).args(&argv).stdin(Stdio::null()).output().expect("spawn ipputil");
+            for s in &server.take_seen() {
+                let tz = tokenize(&s.body);
+                let end = tz.end.unwrap_or(s.body.len());
+                let mut puri = split_uri("MISSING");
+                for t in &tz.toks {
+                    if let Tok::Val(w) = t {
+                        if w.name == b"printer-uri" {
+                            puri = split_uri(&String::from_utf8_lossy(&w.body));
+                        }
+                    }
+                }
+                sink.emit(
+                    &json!({"ev": "oreq", "method": s.method, "term": tz.term, "toks": toks_json(&tz.toks), "hdr_ipp": hdr_json(tz.hdr), "puri": puri,
+                    "paylen": s.body.len() - end.min(s.body.len())}),
+                    &side,
+                );
+            }
+            sink.emit(&json!({"ev": "oexit", "code": outp.status.code().unwrap_or(-9)}), &side);
+            n += 1;
+        }
     }
     server.stop();
     let events = sink.events;
